@@ -154,6 +154,31 @@ class Fn:
         return self.path
 
 
+_REF_FIELDS = None
+
+
+def _reference_field_names(a):
+    """Private fields are named by rules; a refactoring may rename them.  Where a type of the analysed tree has, variant by
+    variant, the same number of fields with the same types in the same order as in the reference tree, its fields get
+    their reference names (rules/reference_fields.json) — a rename then changes nothing the rules see."""
+    global _REF_FIELDS
+    if _REF_FIELDS is None:
+        import json
+        fn = os.path.join(extract.VERIF, "rules", "reference_fields.json")
+        _REF_FIELDS = json.load(open(fn)) if os.path.exists(fn) else {}
+    ref = _REF_FIELDS.get(a["path"])
+    if not ref or len(ref) != len(a["variants"]):
+        return
+    for rv, v in zip(ref, a["variants"]):
+        if len(rv) != len(v["fields"]) or any(rt != ty_str(f["ty"]) for (rn, rt), f in zip(rv, v["fields"])):
+            return
+    for rv, v in zip(ref, a["variants"]):
+        for (rn, rt), f in zip(rv, v["fields"]):
+            if f["name"] != rn:
+                f["orig_name"] = f["name"]
+                f["name"] = rn
+
+
 class Program:
     def __init__(self, config="default", sha=None):
         self.config = config
@@ -174,6 +199,7 @@ class Program:
                 self.impls[i["id"]] = i
             for a in data["adts"]:
                 self.adts[a["path"]] = a
+                _reference_field_names(a)
             for t in data["traits"]:
                 self.traits[t["path"]] = t
         self.by_path = defaultdict(list)
